@@ -356,15 +356,12 @@ func classifyPair(p racePair) string {
 	// protobuf marshaller) races with the writer that filled the slice
 	// (server-side readers of that slice: the filter evaluation of a concurrent read — gateway.isMsgpackEncoded
 	// and the msgpack walkers behind it — look at the bytes GetContentByteArray handed them)
-	bodyReader := func(top, stack string) bool {
-		return strings.Contains(stack, "lin.obsOf;") || strings.HasPrefix(top, "gateway.") || strings.HasPrefix(top, "msgpackpatch.") ||
-			// the gRPC stream server marshalling Treasure.BytesVal
-			strings.HasPrefix(top, "protowire.") || strings.Contains(stack, "proto.MarshalOptions.")
-	}
-	// the slice was filled either by PatchFields (wrapMsgpackBody) or by the client that sent it in a Set
-	// (the harness builds it in lin.bodyBytes and the in-process handler stores it by reference)
-	bodyWriter := func(top string) bool { return top == "swamp.wrapMsgpackBody" || top == "lin.bodyBytes" }
-	if (bodyWriter(p.A) && bodyReader(p.B, p.StackB)) || (bodyWriter(p.B) && bodyReader(p.A, p.StackA)) {
+	// wrapMsgpackBody fills a slice it has just allocated; another goroutine can only touch that
+	// memory without a happens-before edge if the slice was published without synchronisation, and its
+	// only publication is SetContentByteArray under the record guard (the recorded finding). Whoever
+	// the reader is — the harness decoding a response, a filter walking the body, an io.Reader over it,
+	// the protobuf marshaller — the pair belongs to that finding.
+	if p.A == "swamp.wrapMsgpackBody" || p.B == "swamp.wrapMsgpackBody" {
 		return wSetGet
 	}
 	if (reTreasureSave.MatchString(p.A) && reTreasureWriter.MatchString(p.B)) || (reTreasureSave.MatchString(p.B) && reTreasureWriter.MatchString(p.A)) {
